@@ -10,7 +10,8 @@ for sid in sorted(os.listdir(os.path.join(V, "seeded"))):
     if not os.path.isdir(d) or (only and sid not in only):
         continue
     meta = json.load(open(os.path.join(d, "meta.json")))
-    prop = meta.get("check_with") or meta["breaks_property"]
+    import re
+    prop = meta.get("check_with") or re.search(r"C\d\d", meta["breaks_property"]).group(0)
     wt = "/var/tmp/sweepwt.%d" % os.getpid()
     subprocess.run(["git", "-C", "/repo", "worktree", "add", "-q", "--detach", wt, "HEAD"], check=True)
     try:
